@@ -122,6 +122,57 @@ def regenerate_annotations(tag):
     return True, ''
 
 
+def compile_correspondence(seed, n):
+    """The hand-written model of `Smack::compile` (Model/SmackCompile.lean) against the code: (1) the table the model computes
+    from the registered patterns equals the dumped table (mdriver compile-check), (2) the real `Smack::compile` (Y op) and the
+    model compile the same generated pattern sets and print the same dump. No theorem depends on this part of the model (they are
+    stated over the dumped tables): a difference is recorded as drift of the compile model, it is not a verdict on C10."""
+    from lib import Rng, run_impl, parse_blocks
+    out = {}
+    text, rc, err = run_driver([MDRIVER, 'compile-check'], [])
+    out['registered_patterns'] = [l for l in text.splitlines() if l.strip()]
+    out['registered_patterns_agree'] = rc == 0
+    rng = Rng(seed * 7919 + 10)
+    alph = [b'GET', b'PUT', b'\x00', b'\x01', b'*', b'a', b'b', b'A', b'ab', b'S', b'\xff', b'\x80']
+    lines = []
+    for _ in range(n):
+        pats = []
+        for pid in range(1 + rng.below(6)):
+            b = b''.join(rng.choice(alph) for _ in range(1 + rng.below(5)))
+            if rng.chance(1, 6):
+                b += rng.bytes(1 + rng.below(3))
+            flags = rng.choice([0, 1, 1, 5, 5, 4, 2, 3, 7, 6])
+            pats.append('%d:%d:%s' % (rng.choice([pid, pid, rng.below(4)]), flags, b.hex()))
+        lines.append('Y %d %s' % (rng.below(2), ','.join(pats)))
+    itext, irc, ierr = run_driver([IMPL_BIN], ['C mac=c0ffeec0ffee self=- deny=- key=0,0 logger=none level=off'] + lines, env={'MASSCANNED_VERIF': '1'}, timeout=300)
+    mtext, mrc, merr = run_driver([MDRIVER, 'compile'], lines, timeout=300)
+
+    def blocks(t):
+        res, cur = [], None
+        for l in t.split('\n'):
+            if l == '@@B':
+                cur = []
+            elif l == '@@E' and cur is not None:
+                res.append([x for x in cur if not x.startswith(('name ', '@@T'))])
+                cur = None
+            elif cur is not None:
+                cur.append(l)
+        return res
+    ib, mb = blocks(itext)[1:], blocks(mtext)
+    agree = sum(1 for a, b in zip(ib, mb) if a == b)
+    out['generated_pattern_sets'] = len(lines)
+    out['generated_agree'] = agree if len(ib) == len(mb) == len(lines) else 0
+    panics = sum(1 for a in ib if any(x.startswith('@@R PANIC') for x in a))
+    out['generated_sets_on_which_compile_panics'] = panics
+    if out['generated_agree'] != len(lines):
+        for k, (a, b) in enumerate(zip(ib, mb)):
+            if a != b:
+                d = [(x, y) for x, y in zip(a, b) if x != y][:2]
+                out['first_difference'] = {'op': lines[k], 'lines': [(x[:160], y[:160]) for x, y in d] or [len(a), len(b)]}
+                break
+    return out
+
+
 def translator_roundtrip(dumps):
     for name, path in dumps.items():
         text, rc, err = run_driver([MDRIVER, 'dump', name], [])
@@ -322,6 +373,12 @@ def main():
         path = write_replay(prop, {'stage': 'translator round trip', 'what': rt})
         violations.append((path, ' no-failing-input-found'))
         finish()
+    if prop == 'C10':
+        cc = compile_correspondence(seed, 300 if tier == 'quick' else 5000)
+        info['compile_model'] = cc
+        if not cc['registered_patterns_agree'] or cc['generated_agree'] != cc['generated_pattern_sets']:
+            print('NOTE: the model of Smack::compile differs from the code (drift of a part of the model no theorem depends on): %s'
+                  % (cc.get('first_difference') or cc['registered_patterns']))
     aud_ok, aud = (audit(prop) if (has_thm and proof_ok) else (False, {'theorems': theorem_names(prop), 'axioms': {}, 'forbidden': []}))
     nthm = len(aud['theorems'])
     discharged = len([n for n in aud['theorems'] if n in aud['axioms'] and set(aud['axioms'][n]) <= ALLOWED_AXIOMS]) if proof_ok else 0
